@@ -346,7 +346,9 @@ def verify_unit(unit, gen_text, timeout=1500):
     res["report"] = {"extraction": rep0.get("extraction"), "annotator": rep0.get("annotator"),
                      "static_skip": rep0.get("static_skip"), "eoi": rep0.get("eoi"),
                      "contracts_applied": len(rep0.get("contracts_applied", [])),
-                     "real_user_predicates": rep0.get("real_user_predicates", [])}
+                     "real_user_predicates": rep0.get("real_user_predicates", []),
+                     "skip_reader_unsure": rep0.get("skip_reader_unsure"),
+                     "skip_set_differs_from_grammar": rep0.get("skip_set_differs_from_grammar")}
     t0 = time.time()
 
     def one(i):
